@@ -566,8 +566,8 @@ template <class T,int index>
 static FixedArray<T>
 QuatArray_get(FixedArray<IMATH_NAMESPACE::Quat<T> > &qa)
 {
-    return FixedArray<T>(&(qa.unchecked_index(0).r) + index,
-                         qa.len(), 4*qa.stride(), qa.handle(), qa.writable());
+    return FixedArray<T>(&(qa.unchecked_direct_index(0).r) + index,
+                         4*qa.stride(), qa);
 }
 
 template <class T>
